@@ -2,7 +2,7 @@
 import ast
 
 from ..cfg import describe_path, witness
-from ..core import AnalysisError, u, walk_local, enclosing_stmt
+from ..core import AnalysisError, u, walk_local, enclosing_stmt, ancestors
 from ..feasible import path_feasible
 from ..lib import (construct, std_facts, def_of, facts_at, calls_of_node,
                    in_subtree, terminates_in_raise)
@@ -262,9 +262,10 @@ def run(ctx):
   # ---- C02.containers
   mc = ctx.func(CP + '._maybe_parse_container')
   table = None
+  openers = {"'{'", "'('", "'['"}
   for n in walk_local(mc.node):
-    if isinstance(n, ast.Assign) and isinstance(n.value, ast.Dict):
-      table = n.value
+    if isinstance(n, ast.Dict) and {u(k) for k in n.keys if k is not None} == openers:
+      table = n
   want = {"'{'": ("'}'", 'dict'), "'('": ("')'", 'tuple'), "'['": ("']'", 'list')}
   got = {}
   if table is not None:
@@ -274,21 +275,47 @@ def run(ctx):
   ctx.check(got == want, 'C02.containers', construct(mc), 'each opener maps to its own closer and the matching Python constructor',
             'bracket table is %s' % got, mc.loc(), instance='table')
   g, facts = std_facts(prog, mc)
+  # the names this function uses for the constructor, the collected items and the comma flag
+  tvar = xvar = flag = None
+  for n in walk_local(mc.node):
+    if isinstance(n, ast.Assign) and len(n.targets) == 1 and isinstance(n.targets[0], ast.Tuple) and len(n.targets[0].elts) >= 2 \
+        and isinstance(n.value, ast.Subscript) and isinstance(n.targets[0].elts[1], ast.Name):
+      tvar = n.targets[0].elts[1].id
+    if isinstance(n, ast.Call) and isinstance(n.func, ast.Attribute) and n.func.attr == 'append' and isinstance(n.func.value, ast.Name) \
+        and len(n.args) == 1 and isinstance(n.args[0], ast.Call):
+      xvar = n.func.value.id
+    if isinstance(n, ast.Assign) and len(n.targets) == 1 and isinstance(n.targets[0], ast.Name) and isinstance(n.value, ast.Constant) and n.value.value is True \
+        and any(isinstance(a_, ast.While) for a_ in ancestors(n)):
+      flag = n.targets[0].id
+  def atoms_ok(test):
+    t = u(test).replace(' ', '')
+    return isinstance(test, ast.BoolOp) and isinstance(test.op, ast.And) and None not in (tvar, xvar, flag) and \
+        '%sistuple' % tvar in t and 'len(%s)==1' % xvar in t and 'not%s' % flag in t
   one = [n for n in walk_local(mc.node) if isinstance(n, ast.If) and 'tuple' in u(n.test)]
-  ok = False
-  if one:
-    t = u(one[0].test).replace(' ', '')
-    ok = 'type_fnistuple' in t and 'len(values)==1' in t and 'notsaw_comma' in t and isinstance(one[0].test, ast.BoolOp) and isinstance(one[0].test.op, ast.And)
+  ok = bool(one) and atoms_ok(one[0].test) and any(
+      isinstance(x, ast.Assign) and u(x.targets[0]) == tvar for x in one[0].body)
   if not ok:
     # expression form: return True, values[0] if <tuple and one item and no comma> else type_fn(values)
     from ..lib import expand_expr
-    for r_ in [n for n in g.live_nodes() if n.kind == 'return' and isinstance(n.ast.value, ast.Tuple) and len(n.ast.value.elts) == 2]:
+    rets2 = [n for n in g.live_nodes() if n.kind == 'return' and isinstance(n.ast.value, ast.Tuple) and len(n.ast.value.elts) == 2
+             and u(n.ast.value.elts[0]) == 'True']
+    for r_ in rets2:
       v_ = expand_expr(facts[r_.id], r_.ast.value.elts[1])
       for ie in [x for x in ast.walk(v_) if isinstance(x, ast.IfExp)]:
-        t_ = u(ie.test).replace(' ', '')
-        if isinstance(ie.test, ast.BoolOp) and isinstance(ie.test.op, ast.And) and 'type_fnistuple' in t_ and 'len(values)==1' in t_ and 'notsaw_comma' in t_ \
-            and u(ie.body).replace(' ', '') == 'values[0]' and u(ie.orelse).replace(' ', '') == 'type_fn(values)':
+        if atoms_ok(ie.test) and u(ie.body).replace(' ', '') == '%s[0]' % xvar and u(ie.orelse).replace(' ', '') == '%s(%s)' % (tvar, xvar):
           ok = True
+    # statement form: the bare item is returned exactly under the three conditions, the constructed container otherwise
+    bare = [r_ for r_ in rets2 if u(r_.ast.value.elts[1]).replace(' ', '') == '%s[0]' % xvar]
+    built = [r_ for r_ in rets2 if u(r_.ast.value.elts[1]).replace(' ', '') == '%s(%s)' % (tvar, xvar)]
+    if not ok and bare and built and len(bare) + len(built) == len(rets2):
+      def conds(r_):
+        cs = {(f_[1].replace(' ', ''), f_[2]) for f_ in facts[r_.id] if f_[0] == 'c'}
+        whole = [c_ for c_, pol in cs if pol and '%sistuple' % tvar in c_ and 'len(%s)==1' % xvar in c_ and 'not%s' % flag in c_ and 'or' not in c_]
+        return bool(whole) or (('%sistuple' % tvar, True) in cs and ('len(%s)==1' % xvar, True) in cs and (flag, False) in cs)
+      def neg(r_):
+        cs = {(f_[1].replace(' ', ''), f_[2]) for f_ in facts[r_.id] if f_[0] == 'c'}
+        return any((not pol) and '%sistuple' % tvar in c_ and 'len(%s)==1' % xvar in c_ and 'not%s' % flag in c_ and 'or' not in c_ for c_, pol in cs)
+      ok = all(conds(r_) for r_ in bare) and all(neg(r_) for r_ in built)
   ctx.check(ok, 'C02.containers', construct(mc), 'a parenthesised single value without a comma is the value itself, anything else in () is a tuple',
             'the one-tuple rule is no longer `tuple and one item and no comma seen`', mc.loc(), instance='one-tuple')
   sets = [n for n in g.live_nodes() if n.kind == 'stmt' and isinstance(n.ast, ast.Assign) and u(n.ast.targets[0]) == 'saw_comma'
